@@ -219,6 +219,8 @@ def run(ctx):
     # what replay reads from disk is decoded completely (after seed C03-e): = C15-R8 on the storage engine
     from rules.c15 import decode_errors_examined
     decode_errors_examined(ctx, prog, 'C03-R9', re.compile(r'^<?storage::secondary::'), 2)
+    from rules.c07 import compaction_tombstones_before_commit
+    compaction_tombstones_before_commit(ctx, prog, 'C03-R10')
 
 
 def commit_publishes_rule(ctx, prog, rid):
